@@ -554,3 +554,94 @@ func ruleVariantBijective(c *Ctx, r *Report) {
 	}
 	r.analysed(rule, fname(fn))
 }
+
+// ---------------------------------------------------------------------------
+// R-VARIANT-DESCENDS (C11; added after seed C11d): two compounds are variants iff they have the same name and
+// arity and their arguments are pairwise variants - for THIS pair. In the variant test every pair of
+// compounds that passes the name/arity comparison reaches the loop over the arguments: no path leads from
+// there back to the work list without it. A memo of compounds "already taken apart" that is keyed by one side
+// only skips the arguments of a shared subterm the second time it is met - paired with a different partner.
+
+func ruleVariantDescends(c *Ctx, r *Report) {
+	const rule = "R-VARIANT-DESCENDS"
+	fn := c.fn("variant")
+	if fn == nil {
+		r.undecided(rule, "anchor:variant", "-", "locate variant", "not found")
+		return
+	}
+	desc := "every pair of compounds with equal name and arity has its arguments compared"
+	isArityCall := func(v ssa.Value) bool {
+		call, ok := v.(*ssa.Call)
+		return ok && call.Call.IsInvoke() && call.Call.Method.Name() == "Arity"
+	}
+	// the arity comparison of the two sides, and the header of the loop over the arguments
+	var cmpBlock, argLoop *ssa.BasicBlock
+	var eqIdx int
+	for _, b := range fn.Blocks {
+		bo, ok := ifCond(b).(*ssa.BinOp)
+		if !ok {
+			continue
+		}
+		switch {
+		case (bo.Op == token.NEQ || bo.Op == token.EQL) && isArityCall(bo.X) && isArityCall(bo.Y):
+			cmpBlock = b
+			eqIdx = 1
+			if bo.Op == token.EQL {
+				eqIdx = 0
+			}
+		case bo.Op == token.LSS && isArityCall(bo.Y):
+			argLoop = b
+		}
+	}
+	key := fname(fn) + "/compound-pair"
+	if cmpBlock == nil || argLoop == nil {
+		r.undecided(rule, key, c.Pos(fn.Pos()), desc, "the arity comparison or the loop over the arguments was not recognised")
+		return
+	}
+	start := cmpBlock.Succs[eqIdx]
+	// outer loop header: a block with a back edge that dominates cmpBlock
+	var H *ssa.BasicBlock
+	for _, b := range fn.Blocks {
+		back := false
+		for _, p := range b.Preds {
+			if b.Dominates(p) {
+				back = true
+			}
+		}
+		if back && b != argLoop && b.Dominates(cmpBlock) {
+			if H == nil || H.Dominates(b) {
+				H = b
+			}
+		}
+	}
+	if H == nil {
+		r.undecided(rule, key, c.Pos(fn.Pos()), desc, "the work-list loop was not recognised")
+		return
+	}
+	seen := map[*ssa.BasicBlock]bool{}
+	var dfs func(b *ssa.BasicBlock) bool
+	dfs = func(b *ssa.BasicBlock) bool {
+		if b == argLoop {
+			return false
+		}
+		if b == H {
+			return true
+		}
+		if seen[b] {
+			return false
+		}
+		seen[b] = true
+		for _, s := range b.Succs {
+			if dfs(s) {
+				return true
+			}
+		}
+		return false
+	}
+	if dfs(start) {
+		r.bad(rule, key, c.at(cmpBlock.Instrs[len(cmpBlock.Instrs)-1]), desc, "a pair with equal name and arity can return to the work list without its arguments having been paired: a subterm met a second time, next to a different partner, is taken for a variant unseen")
+	} else {
+		r.ok(rule, key, c.at(cmpBlock.Instrs[len(cmpBlock.Instrs)-1]), desc, "node-removal check: without the loop over the arguments the pair cannot get back to the work list", true)
+	}
+	r.analysed(rule, fname(fn))
+}
